@@ -23,6 +23,21 @@ def impl_mi(Y, X, r=1.0, cc=False):
                                                np.float32(r), bool(cc)))
 
 
+def impl_mi_history(pairs, r=1.0, cc=False):
+    """the estimator called repeatedly on the SAME two int32 arrays whose contents are replaced in place between the calls
+    (a caller that reuses its buffers); returns the list of scores"""
+    import numpy as np
+    from outrank.algorithms.feature_ranking import ranking_mi_numba as m
+    n = len(pairs[0][0])
+    by, bx = np.zeros(n, dtype=np.int32), np.zeros(n, dtype=np.int32)
+    out = []
+    for Y, X in pairs:
+        by[:] = Y
+        bx[:] = X
+        out.append(float(m.mutual_info_estimator_numba(by, bx, np.float32(r), bool(cc))))
+    return out
+
+
 def est_line(Y, X, r=Fraction(1), cc=False):
     return line(Atom('MI'), Atom('est'), list(Y), list(X), r.numerator, r.denominator, bool(cc))
 
